@@ -223,6 +223,23 @@ func (g *genCtx) genPanicSites(repo string) string {
 		}
 		fmt.Fprintf(&b, "  %s%s\n", r, sep)
 	}
+	b.WriteString("].\n\n")
+	// the robust summary Properties/C05.v pins: unchecked type assertions and explicit panics (function names left out)
+	var unchecked []string
+	for _, r := range sites {
+		if strings.Contains(r, `, "assert", `) || strings.Contains(r, `, "panic", `) {
+			parts := strings.SplitN(r, ", ", 4)
+			unchecked = append(unchecked, parts[0]+", "+parts[2]+", "+parts[3])
+		}
+	}
+	b.WriteString("Definition unchecked_sites : list (string * string * string) := [\n")
+	for i, r := range unchecked {
+		sep := ";"
+		if i == len(unchecked)-1 {
+			sep = ""
+		}
+		fmt.Fprintf(&b, "  %s%s\n", r, sep)
+	}
 	b.WriteString("].\n")
 	return b.String()
 }
